@@ -903,6 +903,7 @@ impl Property for C06 {
             "parallel_run_with_region",
             "chi_square_checked",
             "wide_prefix_probability_below_1e-9",
+            "gate.h", "gate.x", "gate.z", "gate.s", "gate.sdg", "gate.t", "gate.tdg", "gate.rz", "gate.rx", "gate.cx", "gate.cz", "gate.swap", "gate.xcx", "gate.ccx", "gate.ccz",
         ]
     }
 
@@ -1063,6 +1064,16 @@ impl Property for C06 {
                         interesting_marginal = true;
                     }
                 }
+            }
+        }
+        // which gate kinds this run's program uses (a kind that never shows up in a whole batch is a
+        // hole in the workload, however the generator is described)
+        {
+            let mut kinds: Vec<&'static str> = sc.circ.gates.iter().map(|g| g.k.name()).collect();
+            kinds.sort();
+            kinds.dedup();
+            for k in kinds {
+                out.probe(&format!("gate.{k}"));
             }
         }
         let header = sc.circ.qasm_header();
